@@ -168,6 +168,8 @@ pub mod problems;
 pub mod state;
 pub(crate) mod testing;
 pub mod utils;
+#[cfg(mahf_verif)]
+pub mod verif;
 
 #[doc(hidden)]
 pub use component::ExecResult;
